@@ -47,8 +47,9 @@ SLICE_BASE = ["bool", "string", "matrixd", "vectord", "row_vectord", "functions"
 
 def shapes_for(lf, rf, variant):
     """concrete operand shapes for a form pair; variant picks among the allowed sizes"""
+    # non-square matrices first: a kernel that confuses rows with columns is invisible on square operands
     n = [2, 3, 3][variant]
-    md = [(2, 2), (2, 3), (3, 2)][variant]
+    md = [(2, 3), (3, 2), (2, 2)][variant]
 
     def shp(f, other_md):
         if f == "S":
@@ -198,7 +199,7 @@ def gen_bin_l1(lib, t, lf, rf, variant, tier):
 def gen_un_l1(lib, t, form, variant, tier):
     crate, relp, fxn, _, cat, feat = OPS[lib]
     n = [2, 3, 3][variant]
-    shape = {"S": (1, 1), "RD": (1, n), "VD": (n, 1), "MD": [(2, 2), (2, 3), (3, 2)][variant]}[form]
+    shape = {"S": (1, 1), "RD": (1, n), "VD": (n, 1), "MD": [(2, 3), (3, 2), (2, 2)][variant]}[form]
     cnt = shape[0] * shape[1]
     tag = "%s%dx%d" % (form.lower(), shape[0], shape[1])
     b = [sym_array(t, "l", cnt)]
